@@ -101,7 +101,21 @@ func (x *Exec) step(s *State, in ssa.Instruction, prev *ssa.BasicBlock) bool {
 	case *ssa.Convert:
 		x.execConvert(s, in)
 	case *ssa.ChangeType:
-		s.env[in] = x.val(s, in.X)
+		v := x.val(s, in.X)
+		fs, ts := x.E.SortOf(in.X.Type()), x.E.SortOf(in.Type())
+		if tv, ok := v.(TermVal); ok && fs != ts && fs.Kind == smt.KData && ts.Kind == smt.KData {
+			// conversion between struct types with identical underlying structure
+			fd, td := smt.DataDefs[fs.Name], smt.DataDefs[ts.Name]
+			if len(fd.Fields) == len(td.Fields) {
+				var args []*smt.Term
+				for i := range fd.Fields {
+					args = append(args, smt.Sel(tv.T, i))
+				}
+				s.env[in] = TermVal{smt.Ctor(ts, args...)}
+				return true
+			}
+		}
+		s.env[in] = v
 	case *ssa.ChangeInterface:
 		s.env[in] = x.val(s, in.X)
 	case *ssa.MakeInterface:
